@@ -477,6 +477,8 @@ int vh_gwhich(const void *addr, long *rel, int *is_guard)
     return -1;
 }
 
+int (*vh_fault_describe_hook)(const void *addr, char *buf, size_t n);
+
 static void fault_handler(int sig, siginfo_t *si, void *uc)
 {
     long rel = 0; int isg = 0, a;
@@ -485,7 +487,10 @@ static void fault_handler(int sig, siginfo_t *si, void *uc)
     if (a >= 0)
         snprintf(g_fault_info, sizeof(g_fault_info), "sig %d addr in guard arena %d, offset %ld relative to buffer start (buffer length %lu)%s",
                  sig, a, rel, (unsigned long)(ga[a].hi - ga[a].lo), isg ? " [PROT_NONE guard page]" : "");
-    else
+    else if (vh_fault_describe_hook && vh_fault_describe_hook(si->si_addr, g_fault_info + 32, sizeof(g_fault_info) - 32)) {
+        int k = snprintf(g_fault_info, 32, "sig %d: ", sig);
+        memmove(g_fault_info + k, g_fault_info + 32, strlen(g_fault_info + 32) + 1);
+    } else
         snprintf(g_fault_info, sizeof(g_fault_info), "sig %d addr %p (not in a guard arena)", sig, si->si_addr);
     if (g_fault_shared) { strncpy(g_fault_shared, g_fault_info, 255); g_fault_shared[255] = 0; }
     signal(sig, SIG_DFL);
